@@ -33,6 +33,18 @@ func uploadScenario(fault string, size int, chunk int) string {
 			w.WriteHeader(http.StatusPreconditionFailed)
 		case "early2xx":
 			w.WriteHeader(http.StatusCreated)
+		case "early2xx-stall":
+			// the answer's header block goes out at once, then the server neither reads the body nor finishes the
+			// response until the client goes away
+			w.WriteHeader(http.StatusCreated)
+			if f, ok := w.(http.Flusher); ok {
+				f.Flush()
+			}
+			select {
+			case <-release:
+			case <-r.Context().Done():
+			case <-time.After(30 * time.Second):
+			}
 		case "partial":
 			io.CopyN(io.Discard, r.Body, int64(size/2))
 			w.WriteHeader(http.StatusInsufficientStorage)
@@ -115,9 +127,13 @@ func uploadScenario(fault string, size int, chunk int) string {
 		}
 	}()
 	var res string
+	watchdog := 15 * time.Second
+	if fault == "early2xx-stall" {
+		watchdog = 6 * time.Second // the answer is there from the start: Close has nothing to wait for
+	}
 	select {
 	case res = <-result:
-	case <-time.After(15 * time.Second):
+	case <-time.After(watchdog):
 		return "hang"
 	}
 	// after a refused upload the same client must still be usable (the connection was released)
@@ -165,7 +181,7 @@ func uploadScenario(fault string, size int, chunk int) string {
 
 func famUpload(o *Out, r *RNG, thorough bool) {
 	sizes := []int{0, 4096, 5 << 20, 16 << 20}
-	for _, fault := range []string{"ok", "early", "early2xx", "partial", "partial-json", "partial-bin", "drop", "stall"} {
+	for _, fault := range []string{"ok", "early", "early2xx", "early2xx-stall", "partial", "partial-json", "partial-bin", "drop", "stall"} {
 		for _, size := range sizes {
 			chunks := []int{64 << 10}
 			if size == 4096 {
